@@ -71,6 +71,25 @@ S8 == {Mk("C09/diamond-tops/" \o kc, h, <<F("main.tsh", <<Imp("a", "a.tsh"), Imp
                                                       F("c.tsh", <<>>, FileBody("c", kc, 3), h), F("d.tsh", <<>>, PlainTop("d", 4), h)>>) : kc \in Kinds, h \in Hashes}
       \cup {Mk("C09/direct-and-transitive-top/" \o kc, h, <<F("main.tsh", <<Imp("c", "c.tsh"), Imp("a", "a.tsh"), Imp("d", "d.tsh")>>, UseOf("c", kc) \o UseOf("a", "pub") \o UseOf("d", "pub") \o MainTail, h),
                                                             F("a.tsh", <<Imp("x", "c.tsh")>>, ViaTop("a", "x"), h), F("c.tsh", <<>>, FileBody("c", kc, 3), h), F("d.tsh", <<>>, PlainTop("d", 4), h)>>) : kc \in Kinds, h \in Hashes}
+\* every acyclic import graph over main and three files a, b, c (a may import b and c, b may import c), imports in every order, plus one file under
+\* two aliases: each file has a global, top-level code, and a public function that adds up what its imports deliver.  A file is reached along
+\* one, two, three or four paths.
+GFiles == <<"a", "b", "c">>
+GK(f) == CASE f = "a" -> 1 [] f = "b" -> 2 [] f = "c" -> 3 [] OTHER -> 0
+RECURSIVE SumPub(_, _)
+SumPub(imps, i) == IF i > Len(imps) THEN Var("n") ELSE Bin("+", SumPub(imps, i + 1), ACall(imps[i].alias, "Pub", <<Var("n")>>))
+GBody(f, imps) == <<Def1("G", I(10 * GK(f))), Func("Pub", <<Param("n", "int")>>, <<"int">>, <<RetS(<<Bin("+", SumPub(imps, 1), Var("G"))>>)>>),
+                    PrintS(<<StrL("load " \o f), CallE("Pub", <<I(0)>>)>>)>>
+GImps(l) == [i \in 1..Len(l) |-> Imp("x" \o l[i] \o ToString(i), l[i] \o ".tsh")]
+MainLists == {<<"a">>, <<"b">>, <<"c">>, <<"a", "b">>, <<"b", "a">>, <<"a", "c">>, <<"c", "a">>, <<"b", "c">>, <<"c", "b">>,
+              <<"a", "b", "c">>, <<"c", "b", "a">>, <<"b", "c", "a">>, <<"c", "a", "b">>, <<"a", "a">>, <<"c", "a", "c">>, <<"c", "c", "c">>}
+ALists == {<<>>, <<"b">>, <<"c">>, <<"b", "c">>, <<"c", "b">>}
+BLists == {<<>>, <<"c">>}
+GName(l) == IF l = <<>> THEN "0" ELSE JoinS(l, "")
+AllGraphs == {Mk("C09/graph/m" \o GName(lm) \o "-a" \o GName(la) \o "-b" \o GName(lb), h,
+                 <<F("main.tsh", GImps(lm), [i \in 1..Len(lm) |-> PrintS(<<StrL(lm[i]), ACall(GImps(lm)[i].alias, "Pub", <<I(1)>>)>>)] \o <<Print1(StrL("main"))>>, h),
+                   F("a.tsh", GImps(la), GBody("a", GImps(la)), h), F("b.tsh", GImps(lb), GBody("b", GImps(lb)), h), F("c.tsh", <<>>, GBody("c", <<>>), h)>>)
+              : lm \in MainLists, la \in ALists, lb \in BLists, h \in (IF Tier = "quick" THEN {"letter"} ELSE Hashes)}
 \* rejected programs
 NegH(h) == {Mk("C09/neg/private", h, <<F("main.tsh", <<Imp("a", "a.tsh")>>, <<Print1(ACall("a", "hidden", <<I(1)>>))>>, h), F("a.tsh", <<>>, FileBody("a", "priv", 1), h)>>),
         Mk("C09/neg/undefined", h, <<F("main.tsh", <<Imp("a", "a.tsh")>>, <<Print1(ACall("a", "Nope", <<I(1)>>))>>, h), F("a.tsh", <<>>, FileBody("a", "pub", 1), h)>>),
@@ -81,5 +100,5 @@ NegH(h) == {Mk("C09/neg/private", h, <<F("main.tsh", <<Imp("a", "a.tsh")>>, <<Pr
         Mk("C09/neg/transitivealias", h, <<F("main.tsh", <<Imp("a", "a.tsh")>>, <<Print1(ACall("x", "Pub", <<I(1)>>))>>, h), F("a.tsh", <<Imp("x", "b.tsh")>>, ViaBody("a", "x"), h), F("b.tsh", <<>>, FileBody("b", "pub", 2), h)>>),
         Mk("C09/neg/argtype", h, <<F("main.tsh", <<Imp("a", "a.tsh")>>, <<Print1(ACall("a", "Pub", <<StrL("s")>>))>>, h), F("a.tsh", <<>>, FileBody("a", "pub", 1), h)>>)}
 Neg == NegH("digit")
-ASSUME ndJsonSerialize("fam.ndjson", SetToSeq(S1 \cup S2 \cup S3 \cup S4 \cup S4b \cup S5 \cup S6 \cup S7 \cup S8 \cup Neg))
+ASSUME ndJsonSerialize("fam.ndjson", SetToSeq(S1 \cup S2 \cup S3 \cup S4 \cup S4b \cup S5 \cup S6 \cup S7 \cup S8 \cup AllGraphs \cup Neg))
 =============================================================================
